@@ -8,43 +8,43 @@ E1_NOTE = "trusted: rustc, stateright 0.31, tokio (channels, timer, Framed) incl
 BE_NOTE = "trusted: rustc, the independent vcore reference (BER/LDAP/filter/DN/URL codecs written from the RFCs); exhaustive only within the stated alphabet and size bounds"
 
 CHECKS = {
- "C01": ("model_checking", "E1", "explicit-state model checking (stateright) of the real driver/handles over an in-memory transport: all orders of client polls, driver polls (every select! start branch), server responses, byte releases and unsolicited PDUs in the listed scenarios; oracle: every value handed to a caller carries its own marker and wire ID, in server order; bogus PDUs are seen by nobody", "3 C01", E1_NOTE),
- "C13": ("model_checking", "E1", "explicit-state model checking (stateright) of operation histories (13 step kinds: single ok/error, timeout, abandons, direct/adapted/paged searches read fully or finished early, unsolicited responses; sequences, repeats and concurrent pairs); oracle at every quiescent state: ID table and both routing maps are empty", "3 C13", E1_NOTE),
+ "C01": ("model_checking", "E1", "explicit-state model checking (stateright) of the real driver/handles over an in-memory transport: all orders of client polls, driver polls (every select! start branch), server responses, byte releases (also of responses beyond 127 octets) and unsolicited PDUs in the listed scenarios, incl. an Abandon of a pending operation from another handle, a stream dropped unfinished, operations issued through an open stream's own handle and 7-octet intermediate items; oracle: a caller whose frame has arrived completely is woken by the driver's next poll, every value handed to a caller carries its own marker and wire ID, in server order; bogus PDUs are seen by nobody", "3 C01", E1_NOTE),
+ "C13": ("model_checking", "E1", "explicit-state model checking (stateright) of operation histories (20 step kinds: single ok/error, timeout, abandons, direct/adapted/paged searches in both adapter orders read fully or finished early, timed-out search() and streams, a failing user-defined adapter, an IntermediateResponse for a pending single operation, operations through an open stream's own handle, unsolicited responses; sequences, repeats and concurrent pairs; timeouts that fire while the request write is stalled); oracle at every quiescent state: ID table and both routing maps are empty", "3 C13", E1_NOTE),
 }
 CHECKS.update({
- "C04": ("model_checking", "E1", "explicit-state model checking (stateright) with a fault budget of one placed at every reachable state: EOF, reset, garbage frame (frame and byte level), write error / partial write at every byte of a request / pending write, unbind by another handle, dropping every handle; oracle at terminal states: no client future pending, driver returned when the connection is over, transport shut down or dropped after unbind/last drop, delivered responses still returned, items seen are a prefix in order", "3 C04", E1_NOTE + "; fairness: the server closes its side after an UnbindRequest"),
+ "C04": ("model_checking", "E1", "explicit-state model checking (stateright) with a fault budget of one placed at every reachable state: EOF, reset, garbage frame with and without the peer closing (frame and byte level), a notice of disconnection, write error / partial write at every byte of a request / pending write, unbind by another handle, dropping every handle; oracle at terminal states: no client future pending, driver returned when the connection is over, transport shut down or dropped after unbind/last drop, delivered responses and items still returned, search() never returns a partial result, later calls (also Unbind) fail at once; plus unbind / last drop over real TCP, Unix and TLS sockets (the server must see end-of-stream)", "3 C04", E1_NOTE + "; fairness: the server closes its side after an UnbindRequest"),
  "C05": ("model_checking", "E1+E2", "explicit-state model checking (stateright) of the real allocator: every allocation from 7x2^7 preset (counter, in-use) states around the 2^31-1 wrap-around window and at every ID-codec boundary is compared with the reference cyclic successor; wire IDs decoded by the independent decoder must be in range and distinct among outstanding operations in all interleavings of starts, completions, timeouts and abandons; plus loom exploration (shadow mutex, preemption bound 3 quick / unbounded thorough) of OS-thread interleavings of allocations with each other and with the driver releasing an ID, incl. at the wrap-around", "3 C05", E1_NOTE + "; loom 0.7.2; tokio channels are atomic between loom switch points"),
- "C10": ("model_checking", "E1", "explicit-state model checking (stateright): a stream client with a free call plan (any sequence of next/finish) against every server item sequence up to the bound (entries, references, intermediates, with per-item controls) x result codes x direct/EntriesOnly/search(); a reference state machine predicts every return value and state()", "3 C10", E1_NOTE),
- "C12": ("model_checking", "E1", "explicit-state model checking (stateright) with a virtual clock: timed single ops, timed+untimed mixes, timed streams and search(); Tick interleaved with server answers and polls in every order; oracle: no timeout before the deadline, no pending un-woken call at/after it, a routed response wins, late replies are seen by nobody, later operations complete, nothing stays reserved", "3 C12", E1_NOTE),
- "C16": ("model_checking", "E1", "explicit-state model checking (stateright) of the PagedResults adapter against a paging server model: result-set sizes 0..5 x page sizes 1..3 x cookie styles x accompanying controls/options/timeout x [Paged] / [EntriesOnly, Paged], plus free call plans; oracle on every request the server receives (one paging control, size, cookie echo, unchanged base/scope/filter/attrs/options/other controls, nothing after the empty cookie) and on every value the client gets", "3 C16", E1_NOTE),
+ "C10": ("model_checking", "E1", "explicit-state model checking (stateright): a stream client with a free call plan (any sequence of next/finish) against every server item sequence up to the bound (entries, references, intermediates, with per-item controls) x result codes x direct/EntriesOnly/search(), paged chains in both adapter orders with a reference on every page and a second result control, repeated and non-ASCII URIs, a failing stream and a failing search(), a user-defined adapter that probes the stream after a failed call up the chain; a reference state machine predicts every return value and state()", "3 C10", E1_NOTE),
+ "C12": ("model_checking", "E1", "explicit-state model checking (stateright) with a virtual clock: timed single ops, timed+untimed mixes, timed streams (also with search options carrying a time limit, and through PagedResults against a silent server) and search(), Duration::MAX, Abandon after a timeout; Tick interleaved with server answers and polls in every order; oracle: no timeout before the deadline, no pending un-woken call at/after it, a routed response wins, late replies are seen by nobody, later operations complete, nothing stays reserved", "3 C12", E1_NOTE),
+ "C16": ("model_checking", "E1", "explicit-state model checking (stateright) of the PagedResults adapter against a paging server model: result-set sizes 0..5 x page sizes 1..3 x 4 cookie styles x accompanying controls/options/timeout x [Paged] / [EntriesOnly, Paged], the pager outermost with references on every page, page sizes at the INTEGER encoding boundaries and above the options' size limit, a caller-supplied paging control at four positions, plus free call plans; oracle on every request the server receives (one paging control, size, cookie echo, unchanged base/scope/filter/attrs/options/other controls, nothing after the empty cookie) and on every value the client gets", "3 C16", E1_NOTE),
 })
 CHECKS.update({
- "C07": ("exploration", "E3", "bounded-exhaustive enumeration: every tag tree of depth<=2/width<=2 over 4 classes x 8 tag numbers x 5 payloads (plus depth 3 over a reduced alphabet) encoded by lber, compared byte-for-byte with the independent minimal encoder and parsed back with trailers; every payload size across the 1/2/3/4-octet length boundaries; INTEGER/ENUMERATED for every i64 in a dense range and around every power of two; every combination of non-minimal length forms per node parsed and compared with the independent decoder", "6 C07", BE_NOTE),
- "C08": ("exploration", "E3", "bounded-exhaustive enumeration: (a) every item AST over attribute/rule/value alphabets rendered with every per-byte escaping choice, with and without parentheses, plus composites; (b) every byte string over a 16-symbol filter alphabet up to length 6 (7 thorough) and a 24-symbol one up to 5 (6 thorough); three-part oracle: grammar strings compile to the reference AST, accepted strings print back to the input, must-reject classes are rejected, nothing panics", "6 C08", BE_NOTE),
- "C09": ("exploration", "E3", "bounded-exhaustive enumeration: every string of length <=2 over all ASCII and every string up to length 4 (5 thorough) over the 22 filter/DN metacharacters and multi-byte characters; ldap_escape embedded in four filter shapes compiles to the unchanged structure with the value byte-for-byte, unescape round-trips, dn_escape embedded at four DN positions is read back by an independent RFC 4514 parser, clean input is returned borrowed", "6 C09", BE_NOTE),
- "C15": ("exploration", "E3", "bounded-exhaustive enumeration: every entry with 0-2 (subset: 3) attributes whose value lists are all sequences of length 0..3 over valid/invalid UTF-8 values, built by the independent encoder (4 length forms), parsed by lber, through SearchEntry::construct; oracle: DN, exactly-one-map, text iff all UTF-8 (in order), binary multiset otherwise", "6 C15", BE_NOTE),
+ "C07": ("exploration", "E3", "bounded-exhaustive enumeration: every tag tree of depth<=2/width<=2 over 4 classes x 8 tag numbers x 5 payloads (plus depth 3 over a reduced alphabet) encoded by lber, compared byte-for-byte with the independent minimal encoder and parsed back with trailers; every payload size across the 1/2/3/4-octet length boundaries; INTEGER/ENUMERATED for every i64 in a dense range and around every power of two; every combination of non-minimal length forms per node parsed and compared with the independent decoder; wide/deep shapes to 300 children and depth 64; typed wrappers incl. SequenceOf/SetOf with repeated children; one Parser instance across split and following elements", "6 C07", BE_NOTE),
+ "C08": ("exploration", "E3", "bounded-exhaustive enumeration: (a) every item AST over attribute/rule/value alphabets rendered with every per-byte escaping choice, with and without parentheses, plus composites; (b) every byte string over a 16-symbol filter alphabet up to length 6 (7 thorough) and a 24-symbol one up to 5 (6 thorough); (c) 51 templates with a hole at every kind of grammar position x all 256 bytes and 7 two-hole templates x all 65536 byte pairs; three-part oracle: grammar strings compile to the reference AST, accepted strings print back to the input, must-reject classes are rejected, nothing panics", "6 C08", BE_NOTE),
+ "C09": ("exploration", "E3", "bounded-exhaustive enumeration: every string of length <=2 over all ASCII and every string up to length 4 (5 thorough) over the 22 filter/DN metacharacters and multi-byte characters; ldap_escape embedded in seven filter shapes (also as bare items, where the value ends the string) and in substring positions compiles to the unchanged structure with the value byte-for-byte, unescape round-trips, dn_escape embedded at four DN positions is read back by an independent RFC 4514 parser, clean input is returned borrowed", "6 C09", BE_NOTE),
+ "C15": ("exploration", "E3", "bounded-exhaustive enumeration: every entry with 0-2 (subset: 3) attributes whose value lists are all sequences of length 0..3 over valid/invalid UTF-8 values, built by the independent encoder (4 length forms), parsed by lber, through SearchEntry::construct; attribute descriptions with options/OID/upper case; values of 127..70001 octets; multi-octet characters (whole and cut) at every offset 0..70; oracle: DN, exactly-one-map, text iff all UTF-8 (in order), binary multiset otherwise", "6 C15", BE_NOTE),
  "C20": ("exploration", "E3", "bounded-exhaustive enumeration: full product of base DNs x attribute lists x scope words x filters x extension lists x trailing-? choice, formatted by the independent RFC 4516 formatter; oracle: components and defaults, the three error classes, unknown non-critical extensions ignored", "6 C20", BE_NOTE),
 })
 CHECKS.update({
- "C03": ("exploration", "E3", "bounded-exhaustive enumeration: every response type x every result code 0..122/4096/2^31-1, and every type x matched x text x referral x control list, encoded by the independent encoder minimally and with every length field in the forms 81/82/83/84 (one at a time, all at once, and every combination for small messages), decoded by the crate's codec and result converter and compared field by field; success/non_error/equal helpers for every rc 0..255; every operation kind additionally through a pending real operation over the in-memory transport", "6 C03", BE_NOTE),
- "C06": ("model_checking", "E3+E1", "exhaustive enumeration of read partitions: one real codec instance per stream fed every partition of short streams (all 2^(L-1) for L<=18, 23 thorough), every partition into <=3 chunks of longer ones, byte-at-a-time, cuts around every message and read-buffer boundary incl. a 9000-byte message; plus explicit-state search (stateright) over byte-level delivery through the real Framed and driver; oracle: exactly the messages wholly received are surfaced, in order, and exactly their bytes are consumed", "6 C06", BE_NOTE + "; " + E1_NOTE),
+ "C03": ("exploration", "E3", "bounded-exhaustive enumeration: every response type x every result code 0..122/4096/2^31-1, and every type x matched x text x referral x control list, encoded by the independent encoder minimally and with every length field in the forms 81/82/83/84 (one at a time, all at once, and every combination for small messages), decoded by the crate's codec and result converter and compared field by field; success/non_error/equal helpers for every rc 0..255; every operation kind additionally through a pending real operation over the in-memory transport (binary ExtendedResponse values and SASL credentials, two result controls, result codes that do not fit 32 bits or have no content, responses beyond 127 octets delivered byte by byte)", "6 C03", BE_NOTE),
+ "C06": ("model_checking", "E3+E1", "exhaustive enumeration of read partitions: one real codec instance per stream fed every partition of short streams (all 2^(L-1) for L<=18, 23 thorough), every partition into <=3 chunks of longer ones, byte-at-a-time, cuts around every message and read-buffer boundary incl. 7-, 11-, 9000- and 70000-octet messages and an unsolicited notification; plus explicit-state search (stateright) over byte-level delivery through the real Framed and driver; oracle: exactly the messages wholly received are surfaced, in order, and exactly their bytes are consumed", "6 C06", BE_NOTE + "; " + E1_NOTE),
 })
 CHECKS.update({
- "C02": ("exploration", "E3", "bounded-exhaustive enumeration: every request of per-operation argument products (all 11 operations) with control lists and message-ID positions, written by the real handle and driver to the in-memory transport, decoded by the independent RFC 4511 decoder and compared with a model built from the arguments (one element, exact PDU, canonical minimal encoding); every history of length <=2 (3 thorough) over 9 operation kinds x 8 modifier subsets against a reactive server on a virtual clock: a modifier affects exactly the next operation invoked", "6 C02", BE_NOTE),
+ "C02": ("exploration", "E3", "bounded-exhaustive enumeration: every request of per-operation argument products (all 11 operations) with control lists and message-ID positions (incl. the typed extended requests Password Modify and Who Am I), a length sweep across every length-form boundary at every nesting level, written by the real handle and driver to the in-memory transport, decoded by the independent RFC 4511 decoder and compared with a model built from the arguments (one element, exact PDU, canonical minimal encoding); every history of length <=2 (3 thorough) over 9 operation kinds x 8 modifier subsets against a reactive server on a virtual clock: a modifier affects exactly the next operation invoked; follow-up requests generated by PagedResults are compared with the first request", "6 C02", BE_NOTE),
 })
 CHECKS.update({
- "C11": ("exploration", "E3", "bounded-exhaustive enumeration of hostile input: every byte string up to length 5 (6 thorough) over 24 BER-relevant octets and envelope-shaped prefixes with every tail through the real frame decoder; every single-field mutation of every node of 19 valid responses through the decoder and through the real driver with a single operation and with a search pending on that message ID; nesting depths up to 250000 in a child process on a 2 MiB stack; oracle: no panic, no stack overflow, a frame whose announced bytes have all arrived is delivered or rejected, a driver error is observed by every pending operation", "6 C11", BE_NOTE + "; " + E1_NOTE),
+ "C11": ("exploration", "E3", "bounded-exhaustive enumeration of hostile input: every byte string up to length 5 (6 thorough) over 24 BER-relevant octets and envelope-shaped prefixes with every tail through the real frame decoder; every single-field mutation (lengths incl. 2^32, 2^63-1, 2^64-1; identifier rewrites; the message ID rewritten to non-IDs) of every node of 19 valid responses through the decoder and through the real driver with a single operation and with a search pending on that message ID, and of unsolicited / unused-ID frames with operations pending on another ID; frame pairs in one read; nesting depths up to 250000 under universal, context, application, private and mixed identifiers in a child process on a 2 MiB stack; oracle: no panic, no stack overflow, a frame whose announced bytes have all arrived is delivered or rejected, a driver error is observed by every pending operation, a frame with a foreign ID is handed to nobody", "6 C11", BE_NOTE + "; " + E1_NOTE),
 })
 CHECKS.update({
  "C19": ("exploration", "E3", "bounded-exhaustive enumeration: every listed request control / extended request over its field alphabets (sizes, cookies incl. a length sweep across the BER length-form boundaries, optional fields, attribute lists, the C08 filter pool) compared with RFC-derived OID, criticality and DER value; every listed response value in every combination of length forms parsed and compared with what was encoded; control lists of 0-3 controls x criticality x value through the message envelope in both directions", "6 C19", BE_NOTE),
 })
 CHECKS.update({
- "C14": ("exploration", "E3", "bounded-exhaustive enumeration of operation sequences: every sequence of length 1-2 (3 with plain followers; thorough: all plain pairs) over 18 LdapConn/EntryStream methods x modifier subsets x server behaviours {success, rc 32, silence with timeout, disconnect}, executed through Ldap and through LdapConn on identical paused-clock runtimes over a reactive in-memory server; decoded wire transcripts, every return value, stream item and virtual duration must be identical; every method additionally once through the public constructor over a real Unix socket pair against a server thread", "6 C14", BE_NOTE + "; the in-memory lane builds LdapConn through the verif_from_parts hook"),
+ "C14": ("exploration", "E3", "bounded-exhaustive enumeration of operation sequences: every sequence of length 1-2 (3 with plain followers; thorough: all plain pairs) over 20 LdapConn/EntryStream methods (incl. searches with an unparsable filter) x modifier subsets (controls, empty control list, timeout, search options incl. negative limits) x server behaviours {success, rc 32, silence with timeout, disconnect}, executed through Ldap and through LdapConn on identical paused-clock runtimes over a reactive in-memory server; decoded wire transcripts, every return value, stream item and virtual duration must be identical; every method additionally once through the public constructor over a real Unix socket pair against a server thread", "6 C14", BE_NOTE + "; the in-memory lane builds LdapConn through the verif_from_parts hook"),
 })
 E4_NOTE = "trusted: the loopback test servers of the harness (plain threads; native-tls acceptor with a throw-away PKI generated by setup), OpenSSL honouring SSL_CERT_FILE, the OS loopback stack; default feature set (native-tls) only"
 CHECKS.update({
- "C17": ("fault_enumeration", "E4", "exhaustive enumeration of configuration x server behaviour: {ldaps, StartTLS} x host form x no_tls_verify x 4 certificates x 11 StartTLS answers (refusals, garbage, close, injected cleartext frames, wrong message ID) x 3 handshake behaviours against a real TLS server on loopback; oracle: the only cleartext message is one StartTLS request followed by TLS records, establishment succeeds iff the answer is success, the handshake completes and the certificate is trusted for the name or verification is off, and a bind after establishment is seen only inside TLS and gets the in-TLS answer", "6 C17", E4_NOTE),
- "C18": ("fault_enumeration", "E4", "exhaustive enumeration of URL x settings x API: schemes x host forms x ports x StartTLS x pre-opened stream kinds x timeouts x {LdapConnAsync, LdapConn}, ldapi path forms, unknown schemes, unparsable strings, silent-server timeout cases, against loopback listeners (127.0.0.1/::1 ports 389, 636, ephemeral; Unix sockets) that record who was contacted; a reference function predicts the contacted listener or the error class; nothing may panic or hang", "6 C18", E4_NOTE),
+ "C17": ("fault_enumeration", "E4", "exhaustive enumeration of configuration x server behaviour: {ldaps, StartTLS, both} x host form (also absent) x no_tls_verify (also set twice) x 4 certificates x 17 StartTLS answers (refusals with and without responseName, garbage, close, injected cleartext frames, wrong message ID, an unsolicited notification first, malformed / 2^32 result codes) x 3 handshake behaviours x cloned settings x caller-supplied connector, with and without a connection timeout, against a real TLS server on loopback that completes any handshake the client starts; oracle: the only cleartext message is one StartTLS request followed by TLS records, establishment succeeds iff the answer is success, the handshake completes and the certificate is trusted for the name or verification is off, and a bind after establishment is seen only inside TLS and gets the in-TLS answer", "6 C17", E4_NOTE),
+ "C18": ("fault_enumeration", "E4", "exhaustive enumeration of URL x settings x API: schemes x host forms x ports x StartTLS x pre-opened stream kinds x timeouts (0, finite, Duration::MAX) x {LdapConnAsync, LdapConn} x entry point {with_settings, new, from_url, from_url_with_settings}, URLs with userinfo/path/query, ldapi path forms (also non-UTF-8 percent-escapes), unknown schemes, unparsable strings, silent peers and peers that hang up during TLS/StartTLS setup (also over a pre-opened stream), the first octets a TLS-less peer receives, against loopback listeners (127.0.0.1/::1 ports 389, 636, ephemeral; Unix sockets) that record who was contacted; a reference function predicts the contacted listener or the error class; nothing may panic or hang", "6 C18", E4_NOTE),
 })
 NA = {}
 import os
